@@ -900,3 +900,18 @@ def eval_expr(fn, ref, env, depth=0):
     if ins.op == 'phi' and len(ins.d['incoming']) == 1:
         return ev(ins.d['incoming'][0][0])
     return None
+
+
+def affine_diff(fn, x, y):
+    """affine form of (x - y) with zero terms dropped"""
+    a, b = affine(fn, x), affine(fn, y)
+    out = {}
+    for k in set(a) | set(b):
+        v = a.get(k, 0) - b.get(k, 0)
+        if v != 0:
+            out[k] = v
+    return out
+
+
+def load_terms(fn, form, field):
+    return [k for k in form if k in fn.insts and fn.insts[k].op == 'load' and fn.field(fn.insts[k]) == field]
